@@ -2797,7 +2797,7 @@ namespace awkward {
                 stack_push((T)value);   // note: pushing value
               }
               else {
-                output->write_one_int64((T)value, false);   // note: writing value as signed
+                output->write_one_int64(value, false);   // note: writing value as signed
               }
             }
           }
@@ -2853,7 +2853,7 @@ namespace awkward {
                   stack_push((T)tmp);
                 }
                 else {
-                  output->write_one_int64((T)tmp, false);
+                  output->write_one_uint64(tmp, false);
                 }
                 items_remaining--;
                 bits_wnd_r += (uint64_t)bit_width;
